@@ -228,6 +228,41 @@ def run(tier: str) -> int:
                 rep.violation(f"schema plugin {pname}: {'loaded although its class chain contains an undeclared incompatible override' if loaded else 'refused although valid'}",
                               {"plugin": pname})
         rep.parts["plugin_loading"] = {"plugins": len(LM.EXPECT), "must_be_refused": sum(1 for v in LM.EXPECT.values() if not v)}
+        # hints wrapped in Annotated[...] (as metador's own schemas write them): whatever check_types accepts without
+        # declaration must be semantically safe for the witnesses
+        from typing_extensions import Annotated
+        from pydantic import Field
+        F1 = Field(description="d")
+        wrapped = [(Annotated[T.Int, F1], Annotated[Optional[T.Int], F1]), (Annotated[Optional[T.Int], F1], Annotated[T.Int, F1]),
+                   (Annotated[T.Int, F1], Optional[Annotated[T.Int, F1]]), (Optional[Annotated[T.Int, F1]], Annotated[T.Int, F1]),
+                   (Annotated[List[T.Int], F1], Annotated[List[Optional[T.Int]], F1]),
+                   (Annotated[T.Str, F1], Annotated[Union[T.Str, T.Int], F1]), (Annotated[Literal["a", "b"], F1], Annotated[Literal["a"], F1]),
+                   (Annotated[Literal["a"], F1], Annotated[Literal["a", "b"], F1]), (Annotated[NestA, F1], Annotated[Optional[NestB], F1])]
+        witnesses = [None, 1, "a", "b", "x", [1], [None], {"v": 1}, {"v": 1, "w": 2}]
+        nwr = 0
+        for ph, ch in wrapped:
+            nwr += 1
+            par = model_with(ph, name="AnnParent")
+            chd = model_with(ch, base=par, name="AnnChild")
+            try:
+                check_types(chd)
+                acc_ = True
+            except TypeError:
+                acc_ = False
+            if not acc_:
+                continue
+            for wv in witnesses:
+                try:
+                    obj = chd(f=wv) if wv is not None else chd()
+                except Exception:
+                    continue
+                try:
+                    par.parse_raw(bytes(obj))
+                except Exception as ex:
+                    rep.violation(f"override {ph} -> {ch} was accepted without declaration, but the child instance f={wv!r} "
+                                  f"is rejected by the parent: {type(ex).__name__}", {"parent": str(ph), "child": str(ch), "witness": repr(wv)})
+                    break
+        rep.parts["annotated_wrappers"] = {"pairs": nwr}
         # extra policy must not be loosened by a child
         from pydantic import Extra
 
